@@ -604,11 +604,26 @@ bool qtreetbl_getnext(qtreetbl_t *tbl, qtreetbl_obj_t *obj, const bool newmem) {
             cursor = cursor->left;
             continue;
         } else if (cursor->tid != tid) {
+            void *dupname = NULL;
+            void *dupdata = NULL;
+            if (newmem) {
+                dupname = qmemdup(cursor->name, cursor->namesize);
+                dupdata = qmemdup(cursor->data, cursor->datasize);
+                if (dupname == NULL
+                    || (dupdata == NULL && cursor->data != NULL
+                        && cursor->datasize > 0)) {
+                    // not stamped yet, so this key is returned by a retry.
+                    free(dupname);
+                    free(dupdata);
+                    errno = ENOMEM;
+                    return false;
+                }
+            }
             cursor->tid = tid;
             *obj = *cursor;
             if (newmem) {
-                obj->name = qmemdup(cursor->name, cursor->namesize);
-                obj->data = qmemdup(cursor->data, cursor->datasize);
+                obj->name = dupname;
+                obj->data = dupdata;
             }
             obj->next = cursor;  // store original address in tree for next iteration
             return true;
@@ -763,6 +778,16 @@ qtreetbl_obj_t qtreetbl_find_nearest(qtreetbl_t *tbl, const void *name,
         if (newmem) {
             retobj.name = qmemdup(obj->name, obj->namesize);
             retobj.data = qmemdup(obj->data, obj->datasize);
+            if (retobj.name == NULL
+                || (retobj.data == NULL && obj->data != NULL
+                    && obj->datasize > 0)) {
+                free(retobj.name);
+                free(retobj.data);
+                memset((void*) &retobj, 0, sizeof(retobj));
+                errno = ENOMEM;
+                qtreetbl_unlock(tbl);
+                return retobj;
+            }
         }
         // set travel info to be used for iteration in getnext()
         retobj.tid = tbl->tid;
